@@ -1,6 +1,7 @@
 import Driver.Disk
 import Driver.Reactor
 import Driver.Item
+import Driver.RateLimiter
 /-! zdriver: `zdriver <domain> [--base]` reads one JSON object per line, prints one result line each. -/
 open Lean
 
@@ -17,6 +18,7 @@ def domains : List (String × Domain) := [
   ("disk", stateless Driver.Disk.step),
   ("diskwatch", stateless Driver.Disk.stepWatch),
   ("item", { σ := Zeno.Model.Item.Tree, init := Driver.Item.init, step := Driver.Item.step }),
+  ("rl", { σ := Driver.RateLimiter.St, init := {}, step := Driver.RateLimiter.step }),
   ("reactor", { σ := Zeno.Model.Reactor.R, init := Zeno.Model.Reactor.R.init, step := Driver.Reactor.step })
 ]
 
